@@ -1491,7 +1491,7 @@ fn gen_leaky_line(rng: &mut Rng, sweep: bool) -> Option<String> {
 
 /// a *slightly invalid* step-shaped CDF on a tiny support: decreasing by about one quantum
 /// between neighbouring symbols, leaving `[0, 1]`, NaN, or far outside — a `Distribution` is a
-/// safe trait, so the models must answer with the documented panics, never with UB (D25, D26)
+/// safe trait, so the models must answer with the documented panics, never with UB (D25, D27)
 pub fn gen_badcdf_spec(rng: &mut Rng) -> LeakySpec {
     let sym = *rng.pick(&["u8", "i8", "u16", "i16", "u32", "i32"]);
     let (b, p) = pick_bp(rng, LEAKY_BP);
@@ -1520,7 +1520,7 @@ pub fn gen_badcdf_spec(rng: &mut Rng) -> LeakySpec {
             0 => cs[i] = cs[i - 1] - quantum * (0.6 + unit(rng)), // one quantum down
             1 => cs[i] = cs[i - 1] - quantum * 3.0,
             2 => cs[i] = 1.0 + quantum * (1.0 + 3.0 * unit(rng)), // just above 1
-            3 => cs[i] = 2.0,                                      // wraps the first right cumulative (D26)
+            3 => cs[i] = 2.0,                                      // wraps the first right cumulative (D27)
             4 => cs[i] = 1e9,
             5 => cs[i] = -quantum,
             6 => cs[i] = f64::NAN,
@@ -1529,7 +1529,7 @@ pub fn gen_badcdf_spec(rng: &mut Rng) -> LeakySpec {
         }
     }
     if rng.chance(1, 4) {
-        cs[1.min(k - 1)] = *rng.pick(&[2.0, 1e9, 1.0 + quantum]); // the D26 shape: cdf(min + 0.5) > 1
+        cs[1.min(k - 1)] = *rng.pick(&[2.0, 1e9, 1.0 + quantum]); // the D27 shape: cdf(min + 0.5) > 1
     }
     let hint = HintMode::ConstF(match rng.next() % 5 {
         0 => min as f64,
@@ -1637,7 +1637,7 @@ pub fn gen(rng: &mut Rng, tier: &str, out: &mut Vec<String>) {
     out.extend(fixed(d16a, vec![LOp::Full, LOp::Dec(828), LOp::Sweep(0, 4095, 1)]));
     let d16b = LeakySpec { sym: "i8", b: 16, p: 12, min: -128, max: 127, base: Base::Gauss(0.0, 60.0), hint: HintMode::ConstF(127.0) };
     out.extend(fixed(d16b, vec![LOp::Full, LOp::Dec(208), LOp::Sweep(0, 4095, 1)]));
-    // D25 / D26: invalid CDFs must end in the documented panic, never in `NonZero::new_unchecked(0)`
+    // D25 / D27: invalid CDFs must end in the documented panic, never in `NonZero::new_unchecked(0)`
     let d25 = LeakySpec { sym: "u8", b: 16, p: 12, min: 0, max: 3, base: Base::Step(vec![0.5, 1.5, 2.5], vec![0.0, 0.5, f64::from_bits(0x3fdffdff7fdff7fe), 0.9]), hint: HintMode::ConstF(0.0) };
     out.extend(fixed(d25.clone(), vec![LOp::Full, LOp::Table]));
     out.extend(fixed(d25, vec![LOp::Full, LOp::Enc(0), LOp::Enc(1), LOp::Enc(2)]));
